@@ -35,7 +35,9 @@ Step ==
         /\ hist' = Append(hist, Rec(IF acc THEN "addmul" ELSE "mul", [c |-> x[1], a |-> x[2], b |-> x[3]]))
   \/ \E x \in H2 : Transpose2(x[1], x[2]) /\ lastw' = x[1] /\ hist' = Append(hist, Rec("transpose", [d |-> x[1], a |-> x[2]]))
   \/ \E x \in H2, lr \in 0 .. 1, lc \in {0, 1, 64}, hr \in {1, 2, 3}, hc \in {1, 64, 65, 128} :
-        Submatrix2(x[1], x[2], lr, lc, hr, hc) /\ lastw' = x[1]
+        \* (sampling only: destinations of the exact size or one row / a few columns larger, so that this step does not crowd out the others)
+        /\ Dm(x[1]) - (hr - lr) \in {0, 1} /\ Dn(x[1]) - (hc - lc) \in {0, 1, 2, 62, 63, 64}
+        /\ Submatrix2(x[1], x[2], lr, lc, hr, hc) /\ lastw' = x[1]
         /\ hist' = Append(hist, Rec("submatrix", [d |-> x[1], a |-> x[2], lr |-> lr, lc |-> lc, hr |-> hr, hc |-> hc]))
   \/ \E x \in H3 : Concat3(x[1], x[2], x[3]) /\ lastw' = x[1] /\ hist' = Append(hist, Rec("concat", [d |-> x[1], a |-> x[2], b |-> x[3]]))
   \/ \E x \in H3 : Stack3(x[1], x[2], x[3]) /\ lastw' = x[1] /\ hist' = Append(hist, Rec("stack", [d |-> x[1], a |-> x[2], b |-> x[3]]))
